@@ -107,31 +107,35 @@ def do_proj():
     cases.append({"k": "proj", "pole": pole, "vs": vs, "out": out})
     # ---- oracle: which vectors must be returned, where, and the round trip
     inv = InverseStereographicProjection(pole)
-    exp = []
-    for v in vs:
+    V = Vector3d(np.array(vs, dtype=float))
+    mask = np.atleast_1d(V <= sp.region)
+    rep = {"pole": pole, "vs": vs, "out": out}
+    if int(mask.sum()) != len(out):
+        fail("vector2xy:selection", f"vector2xy(pole={pole}) returned {len(out)} points, {int(mask.sum())} vectors "
+             f"satisfy v <= region", rep)
+        return
+    k = 0
+    for v, m in zip(vs, mask):
         n = norm(v)
         u = [c / n for c in v] if n > 0 else [0.0, 0.0, 0.0]
-        if -pole * u[2] >= -1e-9:
-            exp.append((v, u))
-    short = any(is_short(v) for v in vs)
-    tag = ":short-vector" if short else ""
-    if len(exp) != len(out):
-        fail("vector2xy:selection" + tag,
-             f"vector2xy(pole={pole}) returned {len(out)} points but {len(exp)} of the vectors have their "
-             f"unit vector on the projected hemisphere (hemisphere test is made on the un-normalised vector)",
-             {"pole": pole, "vs": vs, "out": out})
-        return
-    for (v, u), (X, Y) in zip(exp, out):
-        if not (X * X + Y * Y <= 1 + 1e-8):
-            fail("vector2xy:disk" + tag, f"projected point ({X}, {Y}) of {v} is outside the unit disk",
-                 {"pole": pole, "vs": vs, "out": out})
+        side = -pole * u[2]          # >= 0: on the hemisphere that is projected
+        if n > 0 and ((side >= 0 and not m) or (side < -1e-9 and m)):
+            tag = ":unnormalised-test" if n < 1 and abs(v[2]) < 1e-9 else ""
+            fail("vector2xy:selection" + tag,
+                 f"vector {v} (unit z = {u[2]}) is {'returned' if m else 'not returned'} by vector2xy(pole={pole}): "
+                 f"the hemisphere test -pole*z > -1e-9 is made on the un-normalised vector", rep)
             return
-        if n_close(u, [0, 0, 0]):
+        if not m:
             continue
+        X, Y = out[k]; k += 1
+        if n == 0 or side < 0:
+            continue
+        if not (X * X + Y * Y <= 1 + 1e-12):
+            fail("vector2xy:disk", f"projected point ({X}, {Y}) of {v} is outside the unit disk", rep)
+            return
         w = inv.xy2vector(np.array([X]), np.array([Y])).data[0]
         if not n_close(w, u, 1e-9):
-            fail("vector2xy:roundtrip" + tag, f"xy2vector(vector2xy(v)) = {w.tolist()} != unit v = {u} (pole {pole})",
-                 {"pole": pole, "vs": vs, "out": out})
+            fail("vector2xy:roundtrip", f"xy2vector(vector2xy(v)) = {w.tolist()} != unit v = {u} (pole {pole})", rep)
             return
 
 
@@ -193,18 +197,30 @@ def do_split():
     up = [[float(a), float(b)] for a, b in zip(xu, yu)]
     lo = [[float(a), float(b)] for a, b in zip(xl, yl)]
     cases.append({"k": "split", "vs": vs, "up": up, "lo": lo})
-    nu = nl = 0
-    for v in vs:
-        n = norm(v)
-        zu = v[2] / n if n > 0 else 0.0
-        nu += zu >= -1e-9
-        nl += zu <= 1e-9
-    short = any(is_short(v) for v in vs)
-    if (nu, nl) != (len(up), len(lo)):
-        fail("split:assignment" + (":short-vector" if short else ""),
-             f"vector2xy_split put {len(up)} vectors in the upper and {len(lo)} in the lower set; by their unit "
-             f"vectors {nu} are upper (z >= 0) and {nl} lower (z <= 0), equatorial ones counted in both",
+    if len(up) + len(lo) < len(vs):
+        fail("split:assignment", f"vector2xy_split dropped vectors: {len(up)} upper + {len(lo)} lower < {len(vs)}",
              {"vs": vs, "up": up, "lo": lo})
+        return
+    V = Vector3d(np.array(vs, dtype=float))
+    from orix.projections.stereographic import _LOWER_HEMISPHERE, _UPPER_HEMISPHERE
+    mu = np.atleast_1d(V <= _UPPER_HEMISPHERE)
+    ml = np.atleast_1d(V <= _LOWER_HEMISPHERE)
+    if (int(mu.sum()), int(ml.sum())) != (len(up), len(lo)):
+        fail("split:assignment", "vector2xy_split does not return the vectors selected by v <= hemisphere",
+             {"vs": vs, "up": up, "lo": lo})
+        return
+    for v, a, b in zip(vs, mu, ml):
+        n = norm(v)
+        if n == 0:
+            continue
+        zu = v[2] / n
+        wrong = (zu >= 0 and not a) or (zu <= 0 and not b) or (zu < -1e-9 and a) or (zu > 1e-9 and b)
+        if wrong:
+            tag = ":unnormalised-test" if n < 1 and abs(v[2]) < 1e-9 else ""
+            fail("split:assignment" + tag,
+                 f"vector {v} (unit z = {zu}) is assigned upper={bool(a)} lower={bool(b)} by vector2xy_split "
+                 f"(the hemisphere test is made on the un-normalised vector)", {"vs": vs, "up": up, "lo": lo})
+            return
 
 
 # ------------------------------------------------------------ spherical coordinates
@@ -329,8 +345,10 @@ def do_pdf():
     radius, kern = kernel(sd)
     data = np.ma.getdata(hist)
     w1 = [1.0] * len(vs) if ws is None else ws
+    az, po, _ = Vector3d(np.array(vs, dtype=float)).to_polar()
+    aps = [None if (math.isnan(a) or math.isnan(b)) else [float(a), float(b)] for a, b in zip(az, po)]
     case = {"k": "pdf", "lower": hemi == "lower", "steps": steps, "ea": ea.tolist(), "ep": ep.tolist(),
-            "sd": sd, "radius": radius, "kern": kern, "mrd": mrd, "vs": vs, "ws": w1,
+            "sd": sd, "radius": radius, "kern": kern, "mrd": mrd, "vs": vs, "ws": w1, "aps": aps,
             "shape": list(data.shape), "out": data.reshape(-1).tolist(), "res": res, "sigma": sigma}
     if np.ma.getmaskarray(hist).any() or not np.all(np.isfinite(data)):
         # all-masked result (no weight in the hemisphere and mrd): nothing to compare numerically
